@@ -4,8 +4,7 @@
   it returns those names.  (Ties the class-query theorems of C06/C07, stated on name lists, to query strings.)
 -/
 import AHP.Model.Search
-namespace AHP
-
+namespace AHP.G3
 /-- A class name: non-empty, no white space. -/
 def Word (w : Str) : Prop := w ≠ [] ∧ ∀ c ∈ w, isWs c = false
 
@@ -153,4 +152,4 @@ theorem classWords_word {w : Str} (h : Word w) : classWords w = [w] := by
   have hj : joinWith [' '] [w] = w := by unfold joinWith; rfl
   rwa [hj] at this
 
-end AHP
+end AHP.G3
